@@ -331,6 +331,9 @@ func c04Configs(quick bool) []sessmc.Config {
 				if quick && ((bs == "FIX.4.1" || bs == "FIX.4.4") && ch != 2) {
 					continue
 				}
+				if quick && (ch == 5 || (bs == "FIX.4.0" && (ch == 1 || ch == 3))) {
+					continue // (chunk 5 is at least as large as every gap of the alphabet; FIX.4.0 differs from FIX.4.2 in the end marker only)
+				}
 				out = append(out, sessmc.Config{Initiator: ini, BeginString: bs, Chunk: ch})
 			}
 		}
